@@ -50,4 +50,13 @@ theorem c16_gen_loadVersion_decision (known : List Bytes) (db : Db) (svc b : Byt
     have : ¬ ((↑(r.length) : Int) + 1 = 0) := by omega
     simp [Gen.C16.LoadVersion_empty, Gen.Rt.len, this]
     cases decodeVersion (x :: r) <;> rfl
+/-- **what `SaveVersion` writes, as translated** (argument 2 of `binary.Write`: `int32(version)`, the conversion with
+its two's complement wrap-around): the four bytes the model stores (`encodeVersion`) are the little-endian bytes of
+exactly that number — `wrap32` is its residue modulo 2^32.  Falsified by `int64(version)` / `uint16(version)` or a
+version written without the conversion. -/
+theorem c16_gen_saveVersion_written (v : Int) :
+    wrap32 v = (Gen.C16.SaveVersion_arg v % 4294967296).toNat := by
+  unfold wrap32 Gen.C16.SaveVersion_arg Gen.Rt.wrapS
+  congr 1
+  omega
 end C16
